@@ -333,6 +333,85 @@ def run(ctx):
                 ctx.violation("repulsive-coefficient", f"after one negative sample head is {H[0].tolist()}, closed form gives {want2.tolist()}", case)
         ctx.case(key="closed" + str(case), nontrivial=False, part="closed-form")
 
+    # ---- generic-output-metric kernel: whole runs of optimize_layout_generic vs the model's genRunEpochs ----
+    import umap.distances as UD
+    pend = []
+    for t in range(120 if ctx.thorough else 24):
+        g = random_graph(rng, dyadic=True)
+        mname = ["euclidean", "manhattan", "chebyshev"][t % 3]
+        N = int(rng.integers(1, 6))
+        H = g["H"].copy()
+        T = H if g["aliased"] else g["T"].copy()
+        H0, T0 = H.copy(), T.copy()
+        # keep away from kinks of the output metric's gradient (sign / argmax flips under float32 rounding)
+        case = case_of(g, N=N, output_metric=mname)
+        st0 = vertex_states(g["rs"], H0)
+        epns = g["eps"] / g["rate"]
+        try:
+            out = L.optimize_layout_generic(H, T, g["hd"], g["tl"], N, g["nV"], g["eps"].copy(), g["a"], g["b"], g["rs"].copy(), g["gamma"],
+                                            g["alpha0"], g["rate"], UD.named_distances_with_gradients[mname], (), move_other=g["move_other"])
+        except Exception as e:  # noqa
+            ctx.violation("exception", f"optimize_layout_generic raised {type(e).__name__}: {e}", case)
+            continue
+        if not g["aliased"] and not g["move_other"] and not np.array_equal(T, T0):
+            ctx.violation("frozen-reference", f"optimize_layout_generic ({mname}) moved the reference layout (move_other=False)", case)
+        toks = ["sgdgen", mname, int(g["aliased"]), int(g["move_other"]), g["dim"], g["nV"], g["nH"], g["nT"], len(g["hd"]), f2b(g["a"]),
+                f2b(g["b"]), f2b(g["gamma"]), f2b(g["alpha0"]), N]
+        toks += [f2b(v) for v in H0.ravel()] + [f2b(v) for v in T0.ravel()] + [int(v) for v in g["hd"]] + [int(v) for v in g["tl"]]
+        toks += [f2b(v) for v in g["eps"]] + [f2b(v) for v in epns] + [int(v) for v in st0.ravel()]
+        pend.append((drv.add(*toks), np.asarray(out).copy(), g, case, mname))
+    outs = drv.run()
+    for h, out, g, case, mname in pend:
+        t_ = outs[h].split()
+        mH = np.array([b2f(x) for x in t_[: g["nH"] * g["dim"]]]).reshape(g["nH"], g["dim"])
+        d = float(np.max(np.abs(mH - out.astype(np.float64))))
+        if d > 5e-3 * max(1.0, float(np.max(np.abs(out)))):
+            if mname != "euclidean":
+                ctx.skip("generic kernel: non-smooth output metric, trajectory diverged (sign / argmax flip under rounding)")
+            else:
+                ctx.mismatch("sgdgen", {"max_diff": d, "output_metric": mname}, case)
+        ctx.case(key="gen" + str(case["H"]) + mname, nontrivial=True, part="generic", output_metric=mname)
+
+    # ---- parametric variant: each edge replicated int(n_epochs * w) times, pruned edges never (function extracted by AST) ----
+    try:
+        import corpus
+        import scipy.sparse
+        gge = corpus.get_graph_elements_fn()
+    except Exception as e:  # noqa
+        gge = None
+        ctx.skip(f"get_graph_elements could not be extracted: {type(e).__name__}")
+    if gge is not None:
+        pend = []
+        for t in range(100 if ctx.thorough else 20):
+            nv = int(rng.integers(3, 12))
+            ne = int(rng.choice([5, 11, 50, 200]))
+            G = scipy.sparse.random(nv, nv, 0.5, format="csr", dtype=np.float32, random_state=int(rng.integers(0, 10 ** 6)))
+            if G.nnz == 0:
+                continue
+            G.data = rng.uniform(0.0005, 1.0, G.nnz).astype(np.float32)
+            G.data[int(rng.integers(0, G.nnz))] = 1.0
+            g0 = G.copy()
+            graph, eps_, hd_, tl_, w_, nvert = gge(G, ne)
+            case = {"n_epochs": ne, "weights": g0.tocoo().data.tolist()}
+            reps = np.array([int(x) for x in eps_])
+            for wv, rp in zip(w_, reps):
+                if abs(rp - int(ne * float(wv))) > 0:
+                    ctx.violation("parametric-repeats", f"edge of weight {wv}: {rp} repeats, expected int(n_epochs*w) = {int(ne * float(wv))}", case)
+                    break
+            if np.any(w_ < g0.data.max() / ne):
+                ctx.violation("parametric-prune", "an edge weaker than w_max / n_epochs is kept by get_graph_elements", case)
+            c0 = g0.tocoo()
+            c0.sum_duplicates()
+            h = drv.add("prepeats", ne, len(c0.data), *[f2b(float(x)) for x in c0.data])
+            kept = [int(ne * float(x)) for x in c0.data if not x < c0.data.max() / float(ne)]
+            pend.append((h, kept, case))
+            ctx.case(key="param" + str(case), nontrivial=False, part="parametric")
+        outs = drv.run()
+        for h, kept, case in pend:
+            model = [int(x) for x in outs[h].split()]
+            if [m for m in model if m > 0] != [k for k in kept if k > 0]:
+                ctx.mismatch("parametric-repeats", {"model": model, "impl": kept}, case)
+
     # ---- transform() never moves the reference layout (C07 e through the public API) ----
     import umap
     X = rng.normal(size=(50, 4)).astype(np.float32)
